@@ -39,10 +39,13 @@ def main():
         # the contract holds for every counter state: half of the histories start from an arbitrary one
         arbitrary = hist % 2 == 1
         if arbitrary:
+            base = int(rng.choice([0, 0, 7, 97, 998]))       # long-running jobs: counts of different magnitudes side by side
             for x in L + other:
                 if rng.random() < 0.7:
-                    CR.GLOBAL_PRIOR_COMB_COUNTS[x] = int(rng.integers(0, 5))
-        steps = int(rng.integers(1, 12))
+                    CR.GLOBAL_PRIOR_COMB_COUNTS[x] = base + int(rng.integers(0, 5))
+                elif base:
+                    CR.GLOBAL_PRIOR_COMB_COUNTS[x] = base
+        steps = int(rng.integers(1, 12)) if hist % 8 != 3 else int(rng.integers(25, 40))       # some long histories (two-digit counts)
         for step in range(steps):
             cap = int(rng.integers(0, n + 3))
             args = make_args(combination_number_upper_bound=cap, target_ranking_only='False')
